@@ -183,16 +183,28 @@ func c16Monitor(in c16In, code int, id string, panicked any) (ok bool, msg strin
 		}
 	}
 	sniStage := p != proxy.ProtoHTTPS || pathPlain
+	if code == 0 && id != "" {
+		// The label must be a valid host-name label in the bytes the client
+		// sent: a Unicode case mapping may not make one out of something else.
+		for _, cand := range []struct {
+			has bool
+			s   string
+		}{{hasPathCand, pathCand}, {sniStage && hasSNICand, sniCand}} {
+			if cand.has && !c16AnyLabelRe.MatchString(cand.s) && strings.ToLower(cand.s) == id {
+				return false, fmt.Sprintf("the ClientID %q is the lower-casing of %q, which is not a valid host-name label as sent: the request must fail", id, cand.s)
+			}
+		}
+	}
 	// The property stated directly for DoH requests that carry a TLS state
 	// (r.TLS != nil): the only name that counts is r.TLS.ServerName, also when
 	// it is empty; the Host header is attacker-chosen and must play no part.
 	if p == proxy.ProtoHTTPS && in.HasReq && in.HasTLS {
 		if code == 0 && id != "" {
-			okPath := hasPathCand && strings.ToLower(pathCand) == id
+			okPath := hasPathCand && c16AsciiLower(pathCand) == id
 			okTLS := false
 			if in.Host != "" && strings.HasSuffix(in.ReqSNI, "."+in.Host) {
 				x := in.ReqSNI[:len(in.ReqSNI)-len(in.Host)-1]
-				okTLS = pathPlain && x != "" && !strings.Contains(x, ".") && strings.ToLower(x) == id
+				okTLS = pathPlain && x != "" && !strings.Contains(x, ".") && c16AsciiLower(x) == id
 			}
 			if !okPath && !okTLS {
 				return false, "DoH request with a TLS state got an id that is neither the path id nor the label before the configured name in r.TLS.ServerName"
@@ -208,11 +220,11 @@ func c16Monitor(in c16In, code int, id string, panicked any) (ok bool, msg strin
 		}
 	}
 	if code == 0 && id != "" {
-		if id != strings.ToLower(id) || !c16LabelRe.MatchString(id) {
+		if id != c16AsciiLower(id) || !c16LabelRe.MatchString(id) {
 			return false, "id is not a lower-case valid label"
 		}
-		fromPath := hasPathCand && strings.ToLower(pathCand) == id
-		fromSNI := sniStage && hasSNICand && strings.ToLower(sniCand) == id
+		fromPath := hasPathCand && c16AsciiLower(pathCand) == id
+		fromSNI := sniStage && hasSNICand && c16AsciiLower(sniCand) == id
 		if !fromPath && !fromSNI {
 			return false, "id comes neither from /dns-query/<id> nor from <id>.<server name>"
 		}
@@ -234,10 +246,10 @@ func c16Monitor(in c16In, code int, id string, panicked any) (ok bool, msg strin
 	}
 	// Attribution: a valid label in the path, or (when the path has none) in
 	// front of the configured name, is the ClientID, lower-cased.
-	if hasPathCand && c16AnyLabelRe.MatchString(pathCand) && (code != 0 || id != strings.ToLower(pathCand)) {
+	if hasPathCand && c16AnyLabelRe.MatchString(pathCand) && (code != 0 || id != c16AsciiLower(pathCand)) {
 		return false, "valid label in the path was not attributed"
 	}
-	if sniStage && hasSNICand && c16AnyLabelRe.MatchString(sniCand) && (code != 0 || id != strings.ToLower(sniCand)) {
+	if sniStage && hasSNICand && c16AnyLabelRe.MatchString(sniCand) && (code != 0 || id != c16AsciiLower(sniCand)) {
 		return false, "valid label in front of the configured server name was not attributed"
 	}
 	return true, ""
@@ -1547,6 +1559,10 @@ func TestVerifC16(t *testing.T) {
 		c16EmitAux(out, ra)
 	}
 	c16CertStream(out, rnd)
+	// round 5: labels outside ASCII through every channel; Prepare histories
+	// with different certificates
+	c16UnicodeStreams(out, rnd)
+	c16PrepareStreams(t, out, rnd)
 	// round 4: histories of requests and reconfigurations on a running server
 	c16hStreams(t, out, rnd)
 }
